@@ -241,6 +241,34 @@ func PoolN() *Pool {
 	return p
 }
 
+// PoolM: "mixed" predicates - predicates that have inline facts in the program text AND rules, with
+// facts placed both before and after the rules (programs render their clauses in pool order), used
+// positively, negated and recursively by other rules.
+func PoolM() *Pool {
+	p := &Pool{Name: "M", Decls: "Decl e(A,B).\n"}
+	add := func(s string) { p.Rules = append(p.Rules, s); p.Tags = append(p.Tags, "") }
+	add("p(7,8).")
+	add("w(7).")
+	add("p(X,Y) :- e(X,Y).")
+	add("p(X,Z) :- p(X,Y), p(Y,Z).")
+	add("q(X,Y) :- p(X,Y).")
+	add("q(X,Y) :- p(Y,X), !w(X).")
+	add("w(X) :- e(X,_).")
+	add("w(X) :- p(_,X), !e(X,X).")
+	add("q(X,X) :- e(X,_), !p(X,X).")
+	add("v(X) :- w(X), !q(X,X).")
+	add("v(X) :- p(X,_), !w(X).")
+	add("p(8,9).")
+	add("w(8).")
+	add("q(7,7).")
+	add("p(1,7).")
+	p.EDBs = append(Digraphs("e", 3, 2), []string{"e(1,2)", "e(2,3)", "e(3,1)"}, []string{"e(1,1)", "e(1,2)", "e(2,7)", "e(8,3)"})
+	return p
+}
+
+// IsFact reports whether a pool clause is a fact (no body).
+func IsFact(clause string) bool { return !strings.Contains(clause, ":-") }
+
 // PoolB: built-in comparisons, equalities, arithmetic, structured data, let-transforms over n/1.
 func PoolB() *Pool {
 	p := &Pool{Name: "B", Decls: "Decl n(A).\nDecl k(A,B).\n"}
